@@ -813,7 +813,7 @@ pub fn check(o: &CheckOpts) -> i32 {
 
     // ---- determinism self-check (reported, never a verdict)
     let det_n = ((t.det_seeds as f64) * o.scale).max(20.0) as usize;
-    let det_tmo = Duration::from_millis(2000);
+    let det_tmo = Duration::from_millis(6000);
     let d16 = run_batch("det_w16", &pool, &ix, o.seed, 11, RunKind::Short, det_n, w, det_tmo, None, true, 0, 1000, false);
     let mut degraded = d16.degraded;
     let d4 = run_batch("det_w4", &pool, &ix, o.seed, 11, RunKind::Short, det_n, 4.min(w), det_tmo, None, true, 0, 1000, degraded);
@@ -849,7 +849,7 @@ pub fn check(o: &CheckOpts) -> i32 {
     let mut batches: Vec<BatchStats> = Vec::new();
     let short_n = ((t.short_runs as f64) * o.scale) as usize;
     let deadline = Instant::now() + Duration::from_secs(((t.short_budget_s as f64) * o.scale.max(0.2)) as u64 + 1);
-    let short = run_batch("short_swarm", &pool, &ix, o.seed, 1, RunKind::Short, short_n, w, Duration::from_millis(2000), Some(deadline), false, 4, 8, degraded);
+    let short = run_batch("short_swarm", &pool, &ix, o.seed, 1, RunKind::Short, short_n, w, Duration::from_millis(6000), Some(deadline), false, 4, 8, degraded);
     degraded |= short.degraded;
     let wide_n = ((t.wide_runs as f64) * o.scale) as usize;
     let wide = run_batch("wide_16_threads", &pool, &ix, o.seed, 2, RunKind::Wide, wide_n, w, Duration::from_millis(4000), Some(Instant::now() + Duration::from_secs(if t.name == "thorough" { 120 } else { 10 })), false, 1, 8, degraded);
